@@ -47,8 +47,9 @@ theorem C02_expandYear2_roundtrip (y : Nat) (h1 : 1965 ≤ y) (h2 : y ≤ 2064) 
 /-- **fields recovered** for every template satisfying the decidable predicate `Unambig`:
 literals without regex syntax (dots, directory separators …), the temporal placeholders
 `get_filename` fills (fixed width, unrestricted position, also adjacent), and user placeholders
-declared as value lists, each followed by a literal whose first character occurs in none of the
-values; repeated placeholders allowed; any length.  The generated name exists, is parsed, and
+with a `plain` regex (value lists whose words contain no regex metacharacter, the default lazy
+`.+?` / `.*?`, character classes, `\d{n}`) whose fill value satisfies the sufficient condition
+`ValueOK` w.r.t. the literal text that follows; repeated placeholders allowed; any length.  The generated name exists, is parsed, and
 every placeholder is recovered with the string it was written with (`keyStr`), in order of
 first occurrence (`capsOf`).  The proof is by priority: an alternative shorter than the value
 dead-ends at the following literal, the value itself succeeds. -/
@@ -254,7 +255,7 @@ theorem C02_unfilled_placeholder (cfg : Cfg) (tpl : List Tok) (ctx : Ctx) (ps : 
 def Ps (cfg : Cfg) (f : TField) : Bool := cfg.path.contains (.ph (.time false f))
 def Pe (cfg : Cfg) (f : TField) : Bool := cfg.path.contains (.ph (.time true f))
 
-/-- **the datetime arguments are recovered**: for a fixed-width template whose start fields name
+/-- **the datetime arguments are recovered**: for an unambiguous template whose start fields name
 a full date, the name generated for `(s, e)` is parsed and `_retrieve_time_coverage` works on
 exactly the standardised fields of `s` and `e` (`stdOf`: year from year/year2, month/day from
 month+day/doy, millisecond ↦ µs). -/
@@ -761,7 +762,7 @@ example : RoundTrip exCfg2 exCtx2 := by
     by unfold StdOK NoSub; decide, by unfold StdOK NoSub; decide, by unfold HasDate; decide,
     by decide⟩
   simp [exCfg2, exPath2, exCtx2, Unambig, UserOK, ValueOK, litPrefix, Cfg.regexOf, regexActive,
-    special, fillable, List.lookup]
+    special, fillable, List.lookup, URegex.plain, metaChar]
 example : SubDay (Pe exCfg2) := by unfold SubDay NoSub; decide
 #guard format exCfg2 exPath2 exCtx2 = .ok "/noaa18/20161231_2330-0015_noaa18.nc".toList
 #guard getInfo exCfg2 .filename none {} "/noaa18/20161231_2330-0015_noaa18.nc".toList
@@ -805,7 +806,7 @@ theorem exRoundTrip4 : RoundTrip exCfg4 exCtx4 := by
     by unfold StdOK NoSub; decide, by unfold StdOK NoSub; decide, by unfold HasDate; decide,
     by decide⟩
   simp [exCfg4, exPath4, exCtx4, Unambig, UserOK, ValueOK, litPrefix, Cfg.regexOf, regexActive,
-    special, fillable, List.lookup]
+    special, fillable, List.lookup, URegex.plain, metaChar]
 
 example :=
   C02_roundtrip_default exCfg4 exCtx4 exRoundTrip4 {} (by intro f; cases f <;> decide)
@@ -859,7 +860,7 @@ theorem exRoundTrip6 : RoundTrip exCfg6 exCtx6 := by
   have h := exNoEarly
   simp [exCfg6, exPath6, exCtx6, Unambig, UserOK, ValueOK, litPrefix, Cfg.regexOf, regexActive,
     special, fillable, List.lookup, inCls, isDigit]
-  exact h
+  exact ⟨by decide, by decide, by decide, Or.inl h⟩
 
 example := C02_roundtrip_default exCfg6 exCtx6 exRoundTrip6 {} (by intro f; cases f <;> decide)
 #guard format exCfg6 exPath6 exCtx6 = .ok "/042_20180228_noaa18-a.b.nc".toList
@@ -876,6 +877,57 @@ example :=
         { start := none, stop := some { y := 2017, mo := 1, d := 2 }, attrs := [("orbit", "7".toList)] }
         "/20161231_23-17001T0015.nc".toList
       = .ok (exCtx3.s, { y := 2017, mo := 1, d := 2 }, [("orbit", "7".toList)])
+
+-- handler attributes on a template WITH user placeholders: the handler's `sat` wins, `name` and
+-- `orbit` keep their fill values; lazy placeholder at the very END of a template
+theorem exCov6 : coverageOf exCfg6.path (stdOf (Ps exCfg6) exCtx6.s) (stdOf (Pe exCfg6) exCtx6.e) =
+    .ok (some exCtx6.s, none) := by
+  have := C02_end_default exCfg6.path (Ps exCfg6) exCtx6.s (stdOf (Pe exCfg6) exCtx6.e)
+    (by unfold Valid; decide) (by unfold HasDate; decide)
+    (stdOf_empty _ _ (by intro f; cases f <;> decide))
+  rw [this, exRoundTrip6.atRes]
+example :=
+  C02_roundtrip_both exCfg6 exCtx6 exRoundTrip6 none
+    { start := none, stop := none, attrs := [("sat", "H".toList)] } none exCov6
+#guard getInfo exCfg6 .both none { start := none, stop := none, attrs := [("sat", "H".toList)] }
+        "/042_20180228_noaa18-a.b.nc".toList
+      = .ok (exCtx6.s, exCtx6.s, [("orbit", "042".toList), ("sat", "H".toList), ("name", "a.b".toList)])
+
+def exPath7 : List Tok :=
+  [.lit '/', .ph (.time false .year), .ph (.time false .doy), .lit '/', .ph (.user "name")]
+def exCfg7 : Cfg := { path := exPath7 }
+def exCtx7 : Ctx := { s := { y := 2020, mo := 12, d := 31 }, e := { y := 2020, mo := 12, d := 31 },
+                      fill := [("name", "x.y.nc".toList)] }
+theorem exRoundTrip7 : RoundTrip exCfg7 exCtx7 := by
+  refine ⟨?_, by unfold GoodTime Valid; decide, by unfold GoodTime Valid; decide,
+    by unfold StdOK NoSub; decide, by unfold StdOK NoSub; decide, by unfold HasDate; decide,
+    by decide⟩
+  simp [exCfg7, exPath7, exCtx7, Unambig, UserOK, ValueOK, LazyOK, litPrefix, Cfg.regexOf,
+    regexActive, special, fillable, List.lookup, URegex.plain]
+#guard getInfo exCfg7 .filename none {} "/2020366/x.y.nc".toList
+        = .ok (exCtx7.s, exCtx7.s, [("name", "x.y.nc".toList)])
+
+-- OUTSIDE the claim (auditor's counterexamples): typhon pastes value-list words and class
+-- ranges raw into the regex, so a word with a metacharacter is a regex, not a literal —
+-- `URegex.plain` excludes them, the model refuses to compile them (regexError = outside the
+-- fragment), and no `Unambig` / `RoundTrip` instance exists for them.
+example : (URegex.alt ["a.c".toList, "a".toList]).plain = false := by decide
+example : (URegex.cls [('^', '^'), ('a', 'a')] .plus).plain = false := by decide
+def exCfgBad : Cfg :=
+  { path := [.lit '/', .ph (.time false .year), .ph (.time false .month), .ph (.time false .day),
+             .lit '_', .ph (.user "x"), .lit '-', .lit 'c', .ph (.user "y"), .lit '.', .lit 'n', .lit 'c'],
+    env := [("x", .alt ["a.c".toList, "a".toList])] }
+example : ∀ ctx, ¬ Unambig exCfgBad ctx exCfgBad.path := by
+  intro ctx h
+  have hu : UserOK exCfgBad ctx "x" _ := h.2.2.2.2.2.2.2.1
+  obtain ⟨r, v, hreg, _, hplain, _⟩ := userOK_elim hu
+  have hx : exCfgBad.regexOf "x" = some (.alt ["a.c".toList, "a".toList]) := by
+    simp [exCfgBad, Cfg.regexOf, List.lookup]
+  rw [hx] at hreg
+  simp only [Option.some.injEq] at hreg
+  subst hreg
+  revert hplain; decide
+#guard parseFilename exCfgBad "/20180102_a-c-cz.nc".toList = .error .regexError
 
 end Examples
 
